@@ -2,9 +2,9 @@ import HapVerif.Model.Http
 
 /-! # Specification: how a conformant accessory *writes* HTTP/1.1 responses and EVENT/1.0 messages
 
-Independent of the parser: `write` lays a message out as bytes - status line, header lines, the framing header
-(`Content-Length: n`, `Transfer-Encoding: chunked`, or none for a message without body), the blank line, then the
-body as such or as a sequence of chunks closed by the zero chunk.  `Good` lists what the writer promises (no stray
+Independent of the parser: `write` lays a message out as bytes - status line, header lines with the framing
+header (`Content-Length`, `Transfer-Encoding: chunked`, or none for a message without body) anywhere among them -
+all in any spelling -, the blank line, then the body as such or as a sequence of chunks closed by the zero chunk.  `Good` lists what the writer promises (no stray
 separators, ASCII head, numbers that say what they should; header names and values in any spelling).  `WMsg.msg` is what the
 application must be handed.  C07's correctness theorems say that the parser, fed any segmentation of
 `writeAll ms`, hands over exactly `ms.map WMsg.msg` and consumes exactly the bytes written. -/
@@ -21,8 +21,9 @@ def noCRLF : Bytes → Bool
 
 inductive Framing
   | none                                        -- no body, no framing header
-  | length (lenText : Bytes)                    -- `Content-Length: <lenText>`, then the body
-  | chunked (chunks : List (Bytes × Bytes))     -- `Transfer-Encoding: chunked`, then (size in hex, data) ... and `0`
+  | length (h : Bytes × Bytes)                  -- the Content-Length header as written (any spelling), then the body
+  | chunked (h : Bytes × Bytes) (chunks : List (Bytes × Bytes))
+                                                -- the Transfer-Encoding header as written, then (size in hex, data) ... and `0`
   deriving Repr
 
 /-- an HTTP/1.1 or EVENT/1.0 message as an accessory writes it -/
@@ -30,8 +31,9 @@ structure WMsg where
   version : Bytes              -- e.g. `HTTP/1.1`, `EVENT/1.0`
   codeText : Bytes             -- the decimal rendering of the status code
   reason : Bytes
-  headers : List (Bytes × Bytes)   -- other than the framing header
+  headers : List (Bytes × Bytes)   -- ordinary headers written before the framing header
   framing : Framing
+  after : List (Bytes × Bytes)     -- ordinary headers written after it
   body : Bytes
   deriving Repr
 
@@ -48,17 +50,19 @@ def writeHeaders : List (Bytes × Bytes) → Bytes
 
 def statusLine (m : WMsg) : Bytes := m.version ++ 32 :: (m.codeText ++ 32 :: m.reason)
 
-/-- the framing header as the application sees it -/
-def Framing.header : Framing → Option (Bytes × Bytes)
+/-- the framing header as written -/
+def Framing.raw : Framing → Option (Bytes × Bytes)
   | .none => Option.none
-  | .length lt => some (strCL, lt)
-  | .chunked _ => some (strTE, strChunked)
+  | .length h => some h
+  | .chunked h _ => some h
 
-/-- ... and as written: `Name: value` -/
+/-- ... and as the application sees it -/
+def Framing.header (f : Framing) : Option (Bytes × Bytes) := f.raw.map normHeader
+
 def Framing.lines (f : Framing) : Bytes :=
-  match f.header with
+  match f.raw with
   | Option.none => []
-  | some h => headerLine (h.1, 32 :: h.2) ++ crlf
+  | some h => headerLine h ++ crlf
 
 def writeChunks : List (Bytes × Bytes) → Bytes
   | [] => 48 :: (crlf ++ crlf)                                  -- `0 CRLF CRLF`
@@ -70,11 +74,11 @@ def joinChunks : List (Bytes × Bytes) → Bytes
 
 def WMsg.wireBody (m : WMsg) : Bytes :=
   match m.framing with
-  | .chunked cs => writeChunks cs
+  | .chunked _ cs => writeChunks cs
   | _ => m.body
 
 def write (m : WMsg) : Bytes :=
-  statusLine m ++ crlf ++ (writeHeaders m.headers ++ (m.framing.lines ++ (crlf ++ m.wireBody)))
+  statusLine m ++ crlf ++ (writeHeaders m.headers ++ (m.framing.lines ++ (writeHeaders m.after ++ (crlf ++ m.wireBody))))
 
 /-- what makes an (ordinary) header acceptable as written: no colon in the name, ASCII, no line break inside, and
     not a framing header under any spelling -/
@@ -85,11 +89,18 @@ structure GoodHeader (h : Bytes × Bytes) : Prop where
   notCL : (normHeader h).1 ≠ strCL
   nocrlf : noCRLF (headerLine h) = true
 
-/-- the framing says what the body is -/
+/-- a framing header is written like any other header -/
+structure GoodFramingHeader (h : Bytes × Bytes) : Prop where
+  nocolon : (58 : UInt8) ∉ h.1
+  ascii : (h.1 ++ h.2).all (· < 128) = true
+  nocrlf : noCRLF (headerLine h) = true
+
+/-- the framing header is what it claims to be (under any spelling) and says what the body is -/
 def Framing.Good : Framing → Bytes → Prop
   | .none, body => body = []
-  | .length lt, body => parseDec lt = some body.length
-  | .chunked cs, body => body = joinChunks cs ∧ ∀ c ∈ cs, c.2 ≠ [] ∧ parseHex c.1 = some c.2.length
+  | .length h, body => GoodFramingHeader h ∧ (normHeader h).1 = strCL ∧ parseDec (normHeader h).2 = some body.length
+  | .chunked h cs, body => GoodFramingHeader h ∧ normHeader h = (strTE, strChunked) ∧ body = joinChunks cs ∧
+      ∀ c ∈ cs, c.2 ≠ [] ∧ parseHex c.1 = some c.2.length
 
 structure Good (m : WMsg) (code : Nat) : Prop where
   vsp : (32 : UInt8) ∉ m.version
@@ -97,7 +108,7 @@ structure Good (m : WMsg) (code : Nat) : Prop where
   ascii : (m.version ++ m.reason).all (· < 128) = true
   code : parseDec m.codeText = some code
   snocrlf : noCRLF (statusLine m) = true
-  hdrs : ∀ h ∈ m.headers, GoodHeader h
+  hdrs : ∀ h ∈ m.headers ++ m.after, GoodHeader h
   framing : m.framing.Good m.body
 
 /-- executable form of `Good` (sound: `goodB_sound`), used by the driver to certify the harness's messages -/
@@ -105,17 +116,23 @@ def goodHeaderB (h : Bytes × Bytes) : Bool :=
   !h.1.contains 58 && (h.1 ++ h.2).all (· < 128) && (normHeader h).1 != strTE && (normHeader h).1 != strCL &&
     noCRLF (headerLine h)
 
+def goodFramingHeaderB (h : Bytes × Bytes) : Bool :=
+  !h.1.contains 58 && (h.1 ++ h.2).all (· < 128) && noCRLF (headerLine h)
+
 def Framing.goodB : Framing → Bytes → Bool
   | .none, body => body.isEmpty
-  | .length lt, body => parseDec lt == some body.length
-  | .chunked cs, body => body == joinChunks cs && cs.all (fun c => !c.2.isEmpty && parseHex c.1 == some c.2.length)
+  | .length h, body => goodFramingHeaderB h && (normHeader h).1 == strCL && parseDec (normHeader h).2 == some body.length
+  | .chunked h cs, body => goodFramingHeaderB h && normHeader h == (strTE, strChunked) && body == joinChunks cs &&
+      cs.all (fun c => !c.2.isEmpty && parseHex c.1 == some c.2.length)
 
 def goodB (m : WMsg) (code : Nat) : Bool :=
   !m.version.contains 32 && !m.codeText.contains 32 && (m.version ++ m.reason).all (· < 128) &&
-    parseDec m.codeText == some code && noCRLF (statusLine m) && m.headers.all goodHeaderB && m.framing.goodB m.body
+    parseDec m.codeText == some code && noCRLF (statusLine m) && (m.headers ++ m.after).all goodHeaderB &&
+    m.framing.goodB m.body
 
 /-- the headers the application sees: the written ones (normalised), then the framing header -/
-def WMsg.parsedHeaders (m : WMsg) : List (Bytes × Bytes) := m.headers.map normHeader ++ m.framing.header.toList
+def WMsg.parsedHeaders (m : WMsg) : List (Bytes × Bytes) :=
+  m.headers.map normHeader ++ (m.framing.header.toList ++ m.after.map normHeader)
 
 /-- what the application is handed for a written message -/
 def WMsg.msg (m : WMsg) (code : Nat) : Msg :=
@@ -125,5 +142,6 @@ def WMsg.msg (m : WMsg) (code : Nat) : Msg :=
 def writeAll : List (WMsg × Nat) → Bytes
   | [] => []
   | (m, _) :: ms => write m ++ writeAll ms
+
 
 end HapVerif.Http
